@@ -46,10 +46,11 @@ type Finding struct {
 		Kind     string `json:"kind"` // callsite | input | history (informational)
 		FailKind string `json:"fail_kind,omitempty"`
 		Frame    string `json:"frame,omitempty"`
+		FrameRE  string `json:"frame_re,omitempty"`
 		DetailRE string `json:"detail_re,omitempty"`
 		SrcRE    string `json:"src_re,omitempty"`
 	} `json:"match"`
-	detailRE, srcRE *regexp.Regexp
+	detailRE, srcRE, frameRE *regexp.Regexp
 }
 
 // Ctx is the per-test context.
@@ -100,6 +101,9 @@ func (c *Ctx) loadFindings() {
 		if f.Match.SrcRE != "" {
 			f.srcRE = regexp.MustCompile(f.Match.SrcRE)
 		}
+		if f.Match.FrameRE != "" {
+			f.frameRE = regexp.MustCompile(f.Match.FrameRE)
+		}
 		c.Findings = append(c.Findings, f)
 	}
 }
@@ -121,13 +125,16 @@ func (c *Ctx) MatchKnown(fl *Failure) *Finding {
 			continue
 		}
 		m := f.Match
-		if m.FailKind == "" && m.Frame == "" && f.detailRE == nil && f.srcRE == nil {
+		if m.FailKind == "" && m.Frame == "" && f.detailRE == nil && f.srcRE == nil && f.frameRE == nil {
 			continue // an entry with no matcher suppresses nothing
 		}
 		if m.FailKind != "" && m.FailKind != fl.Kind {
 			continue
 		}
 		if m.Frame != "" && !strings.Contains(fl.Callsite, m.Frame) {
+			continue
+		}
+		if f.frameRE != nil && !f.frameRE.MatchString(fl.Callsite) {
 			continue
 		}
 		if f.detailRE != nil && !f.detailRE.MatchString(fl.Detail) {
